@@ -169,13 +169,17 @@ func (b *builder) construct(kind int, bind, val string, body []model.Node) []mod
 		if data == nil {
 			data = []model.KV{}
 		}
-		return []model.Node{model.EmitPartial{Name: pn, Data: data}}
+		// and the partial a second time without data
+		return []model.Node{model.EmitPartial{Name: pn, Data: data}, T("~again:"), model.EmitPartial{Name: pn, Data: []model.KV{}}}
 	case 3: // contentFor + contentOf with data, in the same scope
 		cn := b.next("cf")
 		if data == nil {
 			data = []model.KV{}
 		}
-		return []model.Node{model.ContentFor{Name: cn, Body: body}, T("~"), model.EmitContentOf{Name: cn, Data: data}}
+		// the stored block is replayed a SECOND time without data: what the first replay was given, and what the
+		// block let-bound while it ran, belongs to that replay only
+		return []model.Node{model.ContentFor{Name: cn, Body: body}, T("~"), model.EmitContentOf{Name: cn, Data: data},
+			T("~again:"), model.EmitContentOf{Name: cn, Data: []model.KV{}}}
 	default: // block helper rendering its block on a fresh child context
 		if bind == "" {
 			return []model.Node{model.EmitBlock{Helper: "blk", Body: body}}
@@ -274,7 +278,7 @@ func (g *rgen) nodes(depth int) []model.Node {
 	return out
 }
 
-const rule = "scope constructs {for, user function defined and called on the spot, partial with data, contentFor + contentOf with data in one scope, block helper rendering its block with BlockWith on a fresh child context}; names {x, y, v, p, k} bound by let (fresh and shadowing), and through the construct itself (loop variable / parameter / data key equal to a name that is let-bound outside); probes <%= if (n) { %>[n=<%= n %>]<% } else { %>[n=-]<% } %> for every name before, inside and after each construct. (E) every nesting of 1, 2 and 3 constructs (5 + 25 + 125) x 4 binding patterns x every subset of levels whose construct is ENTERED TWICE (wrapped in a two-iteration loop that binds nothing else), with a fixed let/probe pattern at every level; in half of them a block of literal text stored at top level is replayed with contentOf inside every deeper scope before that scope's lets; (R) random let/probe/construct sequences nested to depth 3. Oracle: environment-chain reference interpreter (each construct is a child scope; lets and bound names vanish when it ends; outer names stay readable and unchanged; top-level let persists). Non-trivial: every case nests at least one construct (distinct by template + partial texts)."
+const rule = "scope constructs {for, user function defined and called on the spot, partial with data, contentFor + contentOf with data in one scope (the stored block, and likewise the partial, is used a second time WITHOUT data: nothing the first use was given or let-bound may be visible), block helper rendering its block with BlockWith on a fresh child context}; names {x, y, v, p, k} bound by let (fresh and shadowing), and through the construct itself (loop variable / parameter / data key equal to a name that is let-bound outside); probes <%= if (n) { %>[n=<%= n %>]<% } else { %>[n=-]<% } %> for every name before, inside and after each construct. (E) every nesting of 1, 2 and 3 constructs (5 + 25 + 125) x 4 binding patterns x every subset of levels whose construct is ENTERED TWICE (wrapped in a two-iteration loop that binds nothing else), with a fixed let/probe pattern at every level; in half of them a block of literal text stored at top level is replayed with contentOf inside every deeper scope before that scope's lets; (R) random let/probe/construct sequences nested to depth 3. Oracle: environment-chain reference interpreter (each construct is a child scope; lets and bound names vanish when it ends; outer names stay readable and unchanged; top-level let persists). Non-trivial: every case nests at least one construct (distinct by template + partial texts)."
 
 func setup(t *testing.T) *vk.Run {
 	r := vk.Start(t, "C09", rule,
